@@ -257,6 +257,15 @@ CbReturn ==
   /\ UNCHANGED alist
   /\ hist' = Append(hist, <<"t", 0, 0>>)
 
+\* the running callback throws: the exception leaves the invocation (doForEachIf holds nothing but the local NodePtr)
+CbThrow ==
+  /\ frames # <<>> /\ "x" \in Ops
+  /\ LET d == Len(frames) IN
+     /\ Commit(alive, head, tail, cur, nxt, prv, gen, nalloc, SubSeq(frames, 1, d - 1))
+     /\ atodo' = SubSeq(atodo, 1, d - 1)
+  /\ UNCHANGED <<alist, bad>>
+  /\ hist' = Append(hist, <<"x", 0, 0>>)
+
 \* ---- whole-object operations (C10); never on a list that is running an invocation, except copying FROM it
 Sever(nx, l) == [n \in Nodes |-> IF n \in Chain(nxt, head[l]) THEN 0 ELSE nx[n]]   \* doFreeAllNodes
 Fresh(k) == [i \in 1..k |-> nalloc + i]
@@ -328,7 +337,7 @@ Next == \/ \E l \in Lists : \/ OpAppend(l) \/ OpPrepend(l) \/ OpEmpty(l) \/ OpIn
                             \/ OpDestroy(l) \/ \E d \in JumpDist : OpJump(l, d)
                             \/ \E t \in Lists : OpCopyConstruct(l, t) \/ OpMoveConstruct(l, t) \/ OpCopyAssign(l, t)
                                                  \/ OpMoveAssign(l, t) \/ OpSwap(l, t)
-        \/ CbReturn
+        \/ CbReturn \/ CbThrow
 
 \* transition cover: one script per generated transition
 Emit == PrintT(ToJson(hist'))
